@@ -585,7 +585,7 @@ def check(run):
             j6.append(((k, "f"), plain, MS.scenario(kept6[k], via_file=(k % 3 == 1)), os.path.join(W, "m6f", str(k)), "plain", 30))
     r6 = L.run_many(j6)
     for k, c in enumerate(sess6):
-        notes = [x if x == "RESET" else x.note.strip().replace(" ", "+") for x in c]
+        notes = [x.split(":")[0] if isinstance(x, str) else x.note.strip().replace(" ", "+") for x in c]
         shape = ">".join(n for n in notes if n)
         sc = MS.scenario(c, via_file=(k % 3 == 1))
         for tag in ("s", "a"):
